@@ -320,6 +320,7 @@ fn render_fn(ctx: &mut Ctx, unit: &Unit, fs: &FnSpec, found: &FoundFn, in_trait_
     }
     body = unwrap_it_labels(body);
     for (a, _) in &fs.at { if !n.used_anchors.contains(a) { ctx.problems.push(format!("LOST-ANCHOR `{}` in {} (available: {})", a, display, n.avail_anchors.iter().cloned().collect::<Vec<_>>().join(" "))); } }
+    for (m, _, name) in &fs.chainbind { if !n.used_anchors.contains(&format!("chainbind {}", m)) { ctx.problems.push(format!("LOST-ANCHOR `@chainbind {} {}` in {} (root-spine method calls seen: {})", m, name, display, n.chain_no.iter().map(|(k, v)| format!("{}x{}", k, v)).collect::<Vec<_>>().join(" "))); } }
     for e in &n.errors { ctx.problems.push(format!("UNSUPPORTED {}", e)); }
     ctx.canaries.extend(n.canaries.iter().cloned());
     let meta = json!({
